@@ -633,6 +633,8 @@ def finish(ctx, ev, cov, cases, outs, codes, broken, corr_ran):
                 ctx.known_seen.append(kf["key"])
                 print("KNOWN-FINDING: property=%s %s" % (ctx.id, kf["what_fails"]))
             continue
+        if len(reported) >= 5:
+            continue
         case = cases[i]
         out = outs[i]
         if hasattr(p, "shrink_candidates") and getattr(ctx, "binary", None):
